@@ -837,6 +837,23 @@ func c09GenStep(r *RNG, cfg c09Cfg, cur c09Obs, k int) []c09Step {
 		return []c09Step{{Kind: "keys", Keys: c09RandText(r, 1, cfg)}}
 	case kind == 1 && k > 2:
 		return []c09Step{{Kind: "reload"}}
+	case kind >= 2 && kind <= 4 && !cfg.Disabled && !cfg.NoInput && cfg.Multi != 0:
+		// selection across query changes: list some lines, select them all, list OTHER lines (the selection survives and may
+		// be as large as or larger than the new list), then act on "the current results" again
+		t1 := c09RandText(r, 1, cfg)
+		t2 := c09RandText(r, 1, cfg)
+		for i := 0; i < 5 && t2 == t1; i++ {
+			t2 = c09RandText(r, 1, cfg)
+		}
+		second := Pick(r, []string{"select-all", "select-all", "toggle-all", "deselect-all"})
+		return []c09Step{
+			{Kind: "post", Acts: []c09Act{{Name: "change-query", Arg: t1}}},
+			{Kind: "post", Acts: []c09Act{{Name: "select-all"}}},
+			{Kind: "post", Acts: []c09Act{{Name: "change-query", Arg: t2}}},
+			{Kind: "post", Acts: []c09Act{{Name: second}}},
+			{Kind: "post", Acts: []c09Act{{Name: "change-query", Arg: c09RandText(r, r.Range(0, 1), cfg)}}},
+			{Kind: "post", Acts: []c09Act{{Name: Pick(r, []string{"select-all", "toggle-all"})}}},
+		}
 	case kind < 9: // editing only
 		n := Pick(r, []int{1, 1, 1, 2, 2, 3, 4})
 		st := c09Step{Kind: "post"}
@@ -920,6 +937,9 @@ func c09GenCfg(r *RNG) c09Cfg {
 	cfg.Track = r.Chance(1, 4)
 	cfg.NoInput = r.Chance(1, 8)
 	cfg.Disabled = r.Chance(2, 3)
+	if !cfg.Disabled && r.Chance(1, 2) {
+		cfg.Multi = -1 // live lists + unlimited selection: the selection can outgrow and outlive the current results
+	}
 	cfg.FileWord = r.Chance(1, 5)
 	if r.Chance(1, 4) {
 		cfg.Query = c09RandText(r, r.Range(1, 5), cfg)
